@@ -282,6 +282,28 @@ fn run(sh: &mut Shard) {
             }
         }
     }
+    // every type as the variable of a fused variable-op-literal / literal-op-variable form inside a function
+    for (_, a) in &tv {
+        for lit in [0i64, 1, 7] {
+            for op in &all_ops {
+                run_case(
+                    sh,
+                    "cross-type-local",
+                    &[es(call(func("", &["x"], vec![es(infix(id("x"), op.clone(), int(lit)))]), vec![a.clone()]))],
+                );
+                run_case(
+                    sh,
+                    "cross-type-local",
+                    &[es(call(func("", &["x"], vec![es(infix(int(lit), op.clone(), id("x")))]), vec![a.clone()]))],
+                );
+                run_case(
+                    sh,
+                    "cross-type-local",
+                    &[es(call(func("", &[], vec![let_("x", a.clone()), es(infix(id("x"), op.clone(), int(lit)))]), vec![]))],
+                );
+            }
+        }
+    }
     // prefix operators on every type
     for (_, a) in &tv {
         for op in [Operator::Subtract, Operator::Not] {
